@@ -156,8 +156,14 @@ def run(ctx):
 
     def check_encode(kind, optmask, flagmask, end, slots):
         cell, v = make_cell(kind, rng, model)
+        # ids are distinct sentinels; in every fifth case one of the fields present holds the id 0 (an id like any other)
+        present = [b for b in bits_of(optmask) if b in ATTR]
+        zb = present[stats["E"] % len(present)] if present and stats["E"] % 5 == 0 else None
+
+        def idv(b):
+            return 0 if b == zb else 1000 + b
         for b in bits_of(optmask):
-            setattr(cell, ATTR[b], 1000 + b)
+            setattr(cell, ATTR[b], idv(b))
         buf = cell._to_buffer()
         ctx.evaluations += 1
         key = {"engine": "replay-encode", "kind": kind}
@@ -175,7 +181,7 @@ def run(ctx):
         for b, off in slots.items():
             if b in ATTR and b in bits_of(optmask):
                 got = struct.unpack("<i", buf[off:off + 4])[0]
-                if got != 1000 + b:
+                if got != idv(b):
                     ctx.fail(dict(key, clause="encode.slot", bit=b), "%s opt=%#x: field of bit %d at offset %d holds %d" % (kind, optmask, b, off, got), rp)
                     return
         # decode what was encoded
@@ -197,7 +203,7 @@ def run(ctx):
         for b in INTERP_IDS:
             if b == 3:
                 continue
-            want = 1000 + b if b in bits_of(optmask) else None
+            want = idv(b) if b in bits_of(optmask) else None
             if getattr(c2, ATTR[b]) != want:
                 ctx.fail(dict(key, clause="roundtrip.attr", bit=b), "%s opt=%#x: %s decoded as %r, encoded %r" % (kind, optmask, ATTR[b], getattr(c2, ATTR[b]), want), rp)
                 return
@@ -218,6 +224,11 @@ def run(ctx):
             kind = "rich"
         else:
             kind = "empty"
+        present = [b for b in slots if b > 2]
+        zb = present[stats["D"] % len(present)] if present and stats["D"] % 5 == 0 else None
+
+        def idv(b):
+            return 0 if b == zb else 1000 + b
         buf = bytearray(end)
         buf[0] = 5
         buf[1] = celltype[kind]
@@ -231,7 +242,7 @@ def run(ctx):
             elif b == 2:
                 buf[off:off + 8] = struct.pack("<d", sec)
             else:
-                buf[off:off + 4] = struct.pack("<i", 1000 + b)
+                buf[off:off + 4] = struct.pack("<i", idv(b))
         ctx.evaluations += 1
         key = {"engine": "replay-decode"}
         rp = {"flags": mask}
@@ -241,7 +252,7 @@ def run(ctx):
             ctx.fail(dict(key, clause="decode.exception", exc=type(e).__name__), "flags %#x: %s: %s" % (mask, type(e).__name__, str(e)[:80]), rp)
             return
         for b in INTERP_IDS:
-            want = 1000 + b if b in bits else None
+            want = idv(b) if b in bits else None
             if getattr(c, ATTR[b]) != want:
                 ctx.fail(dict(key, clause="decode.slot", bit=b, with_0x100=bool(mask & 0x100), with_0x800=bool(mask & 0x800)),
                          "flags %#x: %s decoded as %r, the layout's slot holds %r" % (mask, ATTR[b], getattr(c, ATTR[b]), want), rp)
